@@ -23,6 +23,17 @@ hold for all pairs are outside the premise (counted, not judged).
 A second TLC configuration (script mode) emits every sequence of 2 (quick) / 3 (thorough) steps over a
 small catalogue; the harness replays each step and the same sequence as one stack of real decorators.
 
+Three further specifications are bound the same way (spec -> code; helper modules c16_measure.py, c16_intervals.py):
+  * specs/cons/TransformsMeasure.tla -- impose_measure / impose_position / impose_weight: a state machine whose actions are the
+    tracking and no-weight collapses the decorator applies to the factor measures of a product measure (exact rationals); TLC
+    checks total weight / weighted mean kept, pair positions equal, second member weightless, other factors untouched,
+    idempotence, commutation, and emits for every reachable state the expected flat vector (and that of a second application);
+    replayed in every calling form (tuple of dicts, dict, impose_position, impose_weight) on lists and arrays;
+  * specs/cons/Intervals.tla -- _interval_invert / _interval_intersection / _interval_union / interval_overlap as set algebra
+    on a window of integer and half-integer test points (scripts of operations, each applied to the real previous result);
+  * specs/cons/PairTools.tla -- _inverted, _symmetric, unpair, pairwise, indicator_overlap, select_params as exact combinatorics.
+with_std is a catalogue kind ("std") of Transforms.tla; tools.chain is checked against every stackable script.
+
 Expected values come from TLC only; nothing here re-implements a transform.
 """
 import sys, os, json, time, copy, traceback
@@ -32,7 +43,7 @@ from harness.tlc import run_tlc
 
 NONE = 999999
 INF = 1000000
-STAT = ("mean", "var", "spread", "norm")
+STAT = ("mean", "var", "std", "spread", "norm")
 INPLACE_OK = ("partial", "sync")       # documented to rewrite the given sequence; no copy is promised
 RULE = ("every vector of the bounded class (entries from a fixed set of halves, length 0..3 quick / 0..4 thorough) x every "
         "decorator of the TLA+ catalogue (kind x parameters x Python index selection: None, single, negative, tuples, "
@@ -41,7 +52,14 @@ RULE = ("every vector of the bounded class (entries from a fixed set of halves, 
         "orientations, every list order, negative spellings; thorough: + <= 4 pairs on 5 positions) x offsets None/0/1/-0.5 x every "
         "vector of length 0..4 over {0,1.5} (thorough {-0.5,0,1.5}; length 5 over {0,1.5}); plus every script of "
         "2 (quick) / 3 (thorough) steps in script mode; a case is non-trivial when the premise holds and the specification "
-        "changes at least one entry (or allows a value other than the input); distinct = (decorator, vector, input kind)")
+        "changes at least one entry (or allows a value other than the input); distinct = (decorator, vector, input kind).  "
+        "Measure decorators: every reachable state of TransformsMeasure.tla (shapes (2,),(3,),(2,2),(3,2),(2,3),(3,3) [thorough: + (4,), "
+        "(2,3,2)], weights 0/0.5/1 and positions -0.5/0/1 per entry [thorough: + 1.5], every defined tracking set of <= 2 pairs per factor "
+        "(single, fan-out, chain) and every non-empty proper no-weight set, decorators of 1 collapse on every factor input and of 2 "
+        "(thorough: 3) collapses on hand-picked factors) x calling form x input kind.  Intervals: every list of <= 2 (thorough: 3) "
+        "intervals with ends in 0..3 (0..4) or unbounded x every such operand x {intersection, union} + inversions, and scripts of 2 (3) "
+        "operations over 8 lists; membership compared at every integer and half-integer of the window.  Pair helpers: every list of <= 2 "
+        "pairs over 3 (4) values x a second list.")
 
 # ------------------------------------------------------------------------------------------ TLC side
 # (cfg, number of parallel TLC runs the catalogue is split over); the root module is the cfg's name up to the last "_"
@@ -51,7 +69,36 @@ CONFIGS = {
                  ("MC_TransformsAs5_thorough.cfg", 8)],
 }
 SCRIPT_CFG = {"quick": "MC_Transforms_script.cfg", "thorough": "MC_Transforms_script_thorough.cfg"}
-MODULES = ("MC_TransformsAs5", "MC_TransformsAs", "MC_Transforms")
+MODULES = ("MC_TransformsMeasure", "MC_TransformsAs5", "MC_TransformsAs", "MC_Transforms", "MC_Intervals", "MC_PairTools")
+# the further specifications: (kind of replay, cfg, number of parallel TLC runs the start states are split over)
+EXTRA = {
+    "quick": [("measure", "MC_TransformsMeasure_quick.cfg", 2), ("intervals", "MC_Intervals_quick.cfg", 1), ("pairs", "MC_PairTools_quick.cfg", 1)],
+    "thorough": [("measure", "MC_TransformsMeasure_thorough.cfg", 12), ("intervals", "MC_Intervals_thorough.cfg", 8),
+                 ("pairs", "MC_PairTools_thorough.cfg", 1), ("vacuity", "vacuity-companions", 1)],
+}
+NEW_KINDS = ("measure", "intervals", "pairs", "vacuity")
+# vacuity companions of the further specifications: deliberately false invariants TLC must VIOLATE (thorough tier)
+VACUITY = ["MC_TransformsMeasure_vac_NeverChain.cfg", "MC_TransformsMeasure_vac_NeverRescue.cfg",
+           "MC_TransformsMeasure_vac_NeverZeroReceiver.cfg", "MC_TransformsMeasure_vac_NeverNotIdempotent.cfg",
+           "MC_Intervals_vac_NeverOpen.cfg", "MC_Intervals_vac_NeverTouching.cfg", "MC_Intervals_vac_NeverNested.cfg",
+           "MC_Intervals_vac_NeverUnbounded.cfg", "MC_Intervals_vac_NeverEmpty.cfg"]
+
+
+def vacuity_job():
+    """every companion must be violated (its antecedent is reachable); returns a result record like the replays"""
+    res = {"evaluations": 0, "nontrivial": 0, "viol": {}, "nviol": {}, "samples": [], "vacuity": {}}
+    gen = dist = 0
+    t0 = time.time()
+    for cfg in VACUITY:
+        r = run_tlc("cons/" + module_of(cfg), cfg=cfg, workers=1, timeout=600, heap="1g")
+        name = cfg.split("_vac_")[1].replace(".cfg", "")
+        gen += r.generated or 0
+        dist += r.distinct or 0
+        res["vacuity"][module_of(cfg)[3:] + "." + name] = "reachable (violated as required)" if r.violated == name else "NOT REACHED"
+        if r.violated != name:
+            res["nviol"]["spec:vacuity:" + name] = 1
+            res["viol"]["spec:vacuity:" + name] = [({"cfg": cfg, "tlc": r.out[-1500:]}, "vacuity companion %s of %s was not violated: the class it names is never reached" % (name, cfg))]
+    return res, {"distinct": dist, "generated": gen, "depth": None, "wall_s": time.time() - t0, "violated": None, "culprit": None}
 
 
 def module_of(cfg):
@@ -71,6 +118,14 @@ def tlc_part(cfg, part, nparts):
     stats = {"distinct": r.distinct, "generated": r.generated, "depth": r.depth, "wall_s": r.wall_s,
              "violated": r.violated, "culprit": culprit}
     printed = r.printed
+    if module_of(cfg) in ("MC_TransformsMeasure", "MC_PairTools"):
+        if not printed and not r.violated:
+            raise RuntimeError("TLC emitted nothing for %s part %s:\n%s" % (cfg, part, r.out[-2000:]))
+        return {"S": 2}, printed, stats                 # (scale of MC_TransformsMeasure: CONSTANT S = 2 in its cfgs)
+    if module_of(cfg) == "MC_Intervals":
+        if (not printed or "wlo" not in printed[0]) and not r.violated:
+            raise RuntimeError("TLC emitted no window header for %s:\n%s" % (cfg, r.out[-2000:]))
+        return (printed[0] if printed else {}), printed[1:], stats
     if not printed or not isinstance(printed[0], dict) or "cat" not in printed[0]:
         raise RuntimeError("TLC emitted no catalogue header for %s part %s:\n%s" % (cfg, part, r.out[-2000:]))
     return printed[0], printed[1:], stats
@@ -120,6 +175,8 @@ def decorator(mc, mt, d, S, kind):
         return mc.with_mean(val(p[0], S))
     if k == "var":
         return mc.with_variance(val(p[0], S))
+    if k == "std":
+        return mc.with_std(val(p[0], S))
     if k == "spread":
         return mc.with_spread(val(p[0], S))
     if k == "norm":
@@ -181,7 +238,7 @@ def describe(d, S):
     if k == "as":
         return "impose_as(%s, %s)(%s)" % ([tuple(m) for m in iv], None if p[0] == NONE else f(p[0]), inner)
     if k in STAT:
-        return "%s(%s)(%s)" % ({"mean": "with_mean", "var": "with_variance", "spread": "with_spread", "norm": "normalized"}[k], f(p[0]), inner)
+        return "%s(%s)(%s)" % ({"mean": "with_mean", "var": "with_variance", "std": "with_std", "spread": "with_spread", "norm": "normalized"}[k], f(p[0]), inner)
     if k in ("masked", "partial"):
         return "%s(%s)(%s)" % (k, {m[0]: f(m[1]) for m in iv}, inner)
     if k == "sync":
@@ -542,6 +599,19 @@ def replay_scripts(header, lines, mc, mt, np, stride=1, offset=0):
                 except Exception as ex:
                     add_violation("script:stacked:raises-%s" % type(ex).__name__, {"script": names, "start": start, "error": repr(ex)},
                                   "stack %s on %s raised %r" % (names, start, ex))
+                # tools.chain: "chain together decorators into a single decorator" -- chain(d1, d2, ..)(f) is d1(d2(..(f)))
+                try:
+                    g = mt.chain(*[decorator(mc, mt, cat[st[0] - 1], S, kind) for st in s[1:]])(lambda z: z)
+                    out = as_floats(guarded(g, make_input(start, kind, np)))
+                    want = expect_vec(s[-1])
+                    if len(out) != len(want) or any(abs(Fraction(o) - w) > Fraction(1, 10 ** 12) for o, w in zip(out, want)):
+                        add_violation("script:chain:wrong-value", {"script": names, "start": start, "expected": [float(w) for w in want], "got": out},
+                                      "chain(%s) on %s (%s): spec %s mystic %s" % (names, start, kind, [float(w) for w in want], out))
+                    res["evaluations"] += 1
+                    res["nontrivial"] += 1 if changed else 0
+                except Exception as ex:
+                    add_violation("script:chain:raises-%s" % type(ex).__name__, {"script": names, "start": start, "error": repr(ex)},
+                                  "chain %s on %s raised %r" % (names, start, ex))
             res["traces"] += 1
         if len(res["samples"]) < 1 and changed and no % 101 == 0:
             res["samples"].append({"script": names, "start": start, "spec_vectors_after_each_step(units 1/%d)" % S: [st[1] for st in s[1:]]})
@@ -568,6 +638,10 @@ def work(job):
     import random
     random.seed(12345 + part)
     key = (cfg, part, nparts)
+    if what == "vacuity":
+        res, stats = vacuity_job()
+        res.update({"stats": stats, "job": [what, cfg, part, nparts], "ndecs": 0})
+        return res
     if key in CACHE:
         header, lines, stats = CACHE[key]
     else:
@@ -575,14 +649,23 @@ def work(job):
     old = np.seterr(all="ignore")
     try:
         if what == "cases":
-            res = replay_cases(header, lines, mc, mt, np, corrupt=OPTS["corrupt"] and part == 0)
+            res = replay_cases(header, lines, mc, mt, np, corrupt=OPTS["corrupt"] is True and part == 0)
+        elif what == "measure":
+            from harness.c16_measure import replay_measure
+            res = replay_measure(lines, mc, np, header["S"], corrupt=OPTS["corrupt"] == "measure" and part == 0)
+        elif what == "intervals":
+            from harness.c16_intervals import replay_intervals
+            res = replay_intervals(header, lines, mt, corrupt=OPTS["corrupt"] == "intervals" and part == 0)
+        elif what == "pairs":
+            from harness.c16_intervals import replay_pairtools
+            res = replay_pairtools(lines, mt, np, corrupt=OPTS["corrupt"] == "pairs")
         else:
             res = replay_scripts(header, lines, mc, mt, np)
     finally:
         np.seterr(**old)
     res["stats"] = stats
     res["job"] = [what, cfg, part, nparts]
-    res["ndecs"] = len(header["cat"])
+    res["ndecs"] = len(header["cat"]) if "cat" in header else 0
     return res
 
 
@@ -591,7 +674,12 @@ def jobs_for(tier):
     for cfg, nparts in CONFIGS[tier]:
         jobs += [("cases", cfg, p, nparts) for p in range(nparts)]
     jobs.append(("scripts", SCRIPT_CFG[tier], 0, 1))
-    return jobs
+    extra = []
+    for what, cfg, nparts in EXTRA[tier]:
+        extra += [(what, cfg, p, nparts) for p in range(nparts)]
+    # the pool takes the jobs in this order: the bigger new ones first, the small ones (chains, pair helpers) last
+    big = [j for j in extra if j[0] in ("measure", "intervals")]
+    return big + jobs + [j for j in extra if j not in big]
 
 
 def run_all(ck, a, jobs):
@@ -614,7 +702,9 @@ def run_all(ck, a, jobs):
         ck.mc(st, name)
         if st["violated"]:
             thm = st["violated"]
-            if st["culprit"] and '"Thm' in st["culprit"]:
+            if res["job"][0] in NEW_KINDS:
+                thm = res["job"][1].split("_")[1] + ":" + str(st["violated"])
+            elif st["culprit"] and '"Thm' in st["culprit"]:
                 thm = st["culprit"].split('"Thm')[1].split('"')[0]
                 thm = "Thm" + thm
             ck.violation("spec:" + thm, {"tlc": st["culprit"], "model": name},
@@ -652,10 +742,24 @@ def run_all(ck, a, jobs):
             "classes": po, "example": po_ex}
         print("NOTE: impose_as depends on the order in which the pairs of a mask are listed (%d disagreements in %d classes as:pair-order:*, "
               "not judged; run with C16_PAIR_ORDER=judge): %s" % (sum(po.values()), len(po), po_ex))
+    vac = {}
+    for res in results:
+        vac.update(res.get("vacuity", {}))
+    if vac:
+        ck.extra["vacuity_companions"] = vac
+    notes = {}
+    for res in results:
+        for k, v in res.get("notes", {}).items():
+            notes[k] = notes.get(k, 0) + v
+    if notes:
+        ck.extra["NOTES (observed, outside the property as stated, NOT judged)"] = notes
+        for k, v in sorted(notes.items()):
+            print("NOTE: %s (%d times; not judged)" % (k, v))
+    ck.extra["interval_test_points_left_open(isolated points at operand ends)"] = sum(r.get("open_points", 0) for r in results)
     ck.extra["premise_not_met_cases(skipped)"] = undefined
     ck.extra["case_classes"] = classes
     ck.extra["per_decorator_kind[vector x decorator pairs, non-trivial, premise not met]"] = per_kind
-    ck.extra["catalogue_sizes"] = {"%s[%d]" % (r["job"][1], r["job"][2]): r["ndecs"] for r in results}
+    ck.extra["catalogue_sizes"] = {"%s[%d]" % (r["job"][1], r["job"][2]): r["ndecs"] for r in results if r["ndecs"]}
     return results
 
 
@@ -687,7 +791,33 @@ def new_check(a):
         "partial and synchronized rewrite the sequence they are given (no copy promised); every other decorator must leave its argument unchanged",
         "randomising modes (impose_unique, impose_bounds with clip=False or nearest=False) are checked against the specification's post-condition, "
         "with numpy/python RNGs seeded per worker",
-        "trusted base: TLC's evaluation of Transforms.tla, the JSON emission, and the harness' construction of the real decorator from a catalogue record",
+        "with_std(t) is specified as with_variance(t^2) (its docstring: an outer coupling of impose_std): variance t^2 reached, mean kept; "
+        "same premise (non-degenerate sample) and the same exact / 1e-12 / post-condition comparison as with_variance",
+        "measure decorators (TransformsMeasure.tla): weights >= 0 with a positive total per factor; tracking pairs inside the factor, no self "
+        "pair (not documented), nobody hands its weight on twice, no cycle (single pairs, fan-out, chains); no-weight sets non-empty and "
+        "proper ('all indices' is not documented); sets are passed as python sets, dicts and tuples of dicts as documented; unequal factor "
+        "sizes ARE supported by product_measure.load/flatten and are replayed ((3,2), (2,3)).  A pair (i,j) moves j to the position of i "
+        "and j's weight onto i (docstrings of impose_measure and impose_collapse's example), weight flows to the root of a chain; a no-weight "
+        "set leaves the other weights in proportion, or - when nothing remains - gives them equal shares (nullable=False); afterwards the "
+        "positions are shifted so the weighted mean is kept.  Compared exactly when every divisor (total weight, remaining weight) is a power "
+        "of two, else to 1e-12 relative.  A tuple of dicts is applied member after member (so a decorator with several collapses of ONE "
+        "factor need not be idempotent: the second application is compared with the specification's second application)",
+        "a chained tracking collapse whose python set iterates a pair before the pair that hands its first member on is keyed "
+        "measure:pair-order:late-root:* (tools.connected depends on the order in which pairs are listed - the root cause of the known "
+        "finding as:pair-order:* of impose_as)",
+        "interval helpers (Intervals.tla): operand lists are non-empty, ascending, lo < hi, successive intervals disjoint or touching, ends "
+        "integers or +-inf (given as floats, and as ints when all are finite); [lb, ub] of an inversion contains the set; a list denotes the "
+        "union of its CLOSED intervals; isolated points at operand ends are not specified (membership there is not compared: the docstrings "
+        "are silent and the code drops l == h in intersections but keeps (a, a) in inversions); the meaning of an EMPTY list is not "
+        "documented, so no operation is applied to an empty result; within a script every operation is applied to the REAL previous "
+        "result after dropping its degenerate entries (lo >= hi); interval_overlap: the common key carries the intersection / union, "
+        "keys of one side pass through an intersection",
+        "pair helpers (PairTools.tla): unpair / pairwise / select_params on at least one pair / entry / index (their results for empty "
+        "arguments are not documented); pairwise is judged with indices=True (the only form mystic uses); that pairwise(x) with "
+        "indices=False returns a 2-tuple (distances, distances) is recorded as a NOTE, not judged",
+        "not covered here (they need termination objects or solvers and are outside the transforms of C16): tools.no_mask, _no_mask, "
+        "unmasked_collapse, masked_collapse, _masked_collapse, solver_bounds; insert_missing is exercised through masked",
+        "trusted base: TLC's evaluation of the specifications, the JSON emission, and the harness' construction of the real decorator / call from an emitted record",
     ]
     return ck
 
@@ -792,10 +922,19 @@ def selftest(a):
         for job, data in zip(jobs, tp.map(lambda j: tlc_part(j[1], j[2], j[3]), jobs)):
             CACHE[(job[1], job[2], job[3])] = data
 
+    import mystic.math.measures as mm
     orig = {"bounded": mc.bounded, "discrete": mc.discrete, "integers": mc.integers, "impose_at": mc.impose_at,
             "sorting": mc.sorting, "suppress": mt.suppress, "impose_as": mc.impose_as, "clipped": mt.clipped,
             "insert_missing": mt.insert_missing, "monotonic": mc.monotonic, "partial": mt.partial,
-            "synchronized": mt.synchronized}
+            "synchronized": mt.synchronized,
+            "with_std": mc.with_std, "impose_measure": mc.impose_measure, "impose_collapse": mc.impose_collapse,
+            "chain": mt.chain, "_interval_invert": mt._interval_invert, "_interval_intersection": mt._interval_intersection,
+            "_interval_union": mt._interval_union, "indicator_overlap": mt.indicator_overlap, "_inverted": mt._inverted,
+            "pairwise": mt.pairwise, "unpair": mt.unpair}
+    TOOLS = ("suppress", "clipped", "insert_missing", "partial", "synchronized", "chain", "_interval_invert", "_interval_intersection",
+             "_interval_union", "indicator_overlap", "_inverted", "pairwise", "unpair")
+    mm_collapse = mm.impose_collapse
+    orig_aliases = (mc.impose_position, mc.impose_weight)
 
     def src_mutant(module, name, old, new, count=1):
         """re-exec the source of module.name with one textual change (in memory only)"""
@@ -872,6 +1011,73 @@ def selftest(a):
     def m_corrupt():
         OPTS["corrupt"] = True
 
+    # ---- the further specifications (measure decorators, interval algebra, pair helpers, with_std, chain)
+    def m_std_not_squared():
+        mc.with_std = lambda target: mc.with_variance(target)
+
+    def m_collapse_reversed():
+        # the weight of the FIRST index is moved onto the second
+        mc.impose_collapse = lambda pairs, samples, weights: mm_collapse(set((j, i) for i, j in pairs), samples, weights)
+
+    def m_collapse_keeps_positions():
+        # the pair's weight is merged but the second member stays where it was
+        import inspect, textwrap
+        src = textwrap.dedent(inspect.getsource(mm_collapse))
+        assert "samples[k] = samples[i]" in src
+        ns = dict(mm.__dict__)
+        exec(compile(src.replace("samples[k] = samples[i]", "pass"), "<mutant impose_collapse>", "exec"), ns)
+        mc.impose_collapse = ns["impose_collapse"]
+
+    def m_noweight_nullable():
+        # no-weight collapse without the rescue (nullable=True): a factor whose remaining weight is zero loses its norm
+        src_mutant(mc, "impose_measure", "impose_unweighted(v, c[k].positions, c[k].weights, False)",
+                   "impose_unweighted(v, c[k].positions, c[k].weights, True)")
+        mc.impose_position = lambda npts, tracking: mc.impose_measure(npts, tracking, {})
+        mc.impose_weight = lambda npts, noweight: mc.impose_measure(npts, {}, noweight)
+
+    def m_measure_shape_reversed():
+        # the parameter vector is loaded with the factor sizes in reverse order
+        src_mutant(mc, "impose_measure", "c.load(x, npts)", "c.load(x, npts[::-1])")
+        mc.impose_position = lambda npts, tracking: mc.impose_measure(npts, tracking, {})
+        mc.impose_weight = lambda npts, noweight: mc.impose_measure(npts, {}, noweight)
+
+    def m_weight_alias_swapped():
+        # impose_weight hands its collapses to the tracking slot
+        mc.impose_weight = lambda npts, noweight: mc.impose_measure(npts, {}, {})
+
+    def m_intersection_partial():
+        src_mutant(mt, "_interval_intersection", "if l < h:", "if l < h and lb <= lo:")
+
+    def m_invert_ignores_lb():
+        src_mutant(mt, "_interval_invert", "lb = _a if lb is None else lb", "lb = _a")
+
+    def m_union_hull_of_first():
+        src_mutant(mt, "_interval_union", "lb,ub = min(_a,_b),max(a_,b_)", "lb,ub = _a,a_")
+
+    def m_indicator_swapped():
+        src_mutant(mt, "indicator_overlap", "if union:", "if not union:")
+
+    def m_inverted_identity():
+        mt._inverted = lambda pairs: list(map(tuple, pairs))
+
+    def m_pairwise_signed():
+        src_mutant(mt, "pairwise", "return abs(z),list(zip(*idx)) if indices else abs(z)", "return z,list(zip(*idx)) if indices else z")
+
+    def m_unpair_swapped():
+        mt.unpair = lambda pairs: orig["unpair"](pairs)[::-1]
+
+    def m_chain_reversed():
+        src_mutant(mt, "chain", "for _dec in reversed(decorators):", "for _dec in decorators:")
+
+    def m_corrupt_measure():
+        OPTS["corrupt"] = "measure"
+
+    def m_corrupt_intervals():
+        OPTS["corrupt"] = "intervals"
+
+    def m_corrupt_pairs():
+        OPTS["corrupt"] = "pairs"
+
     mutants = [("impose_bounds clips into the far interval", m_clip_far),
                ("discrete tie rule flipped (tie goes to the higher member)", m_discrete_tie),
                ("integers: out-of-range index wraps around instead of being ignored", m_oor_wraps),
@@ -889,7 +1095,24 @@ def selftest(a):
                ("impose_as: component resolved in the wrong direction", m_as_backwards),
                ("impose_as: offset=None adds 1", m_as_offset_none_is_one),
                ("synchronized ignores a callable scale", m_sync_callable_ignored),
-               ("one expected value from TLC corrupted", m_corrupt)]
+               ("one expected value from TLC corrupted", m_corrupt),
+               ("with_std: target not squared (with_variance(target))", m_std_not_squared),
+               ("chain applies the decorators in reverse order", m_chain_reversed),
+               ("measure: collapse moves the weight of the FIRST index onto the second", m_collapse_reversed),
+               ("measure: collapse merges the weights but leaves the positions", m_collapse_keeps_positions),
+               ("measure: no-weight collapse with nullable=True (no rescue)", m_noweight_nullable),
+               ("measure: vector loaded with the shape reversed", m_measure_shape_reversed),
+               ("measure: impose_weight drops its collapses", m_weight_alias_swapped),
+               ("measure: one expected value from TLC corrupted", m_corrupt_measure),
+               ("new: _interval_intersection drops pieces", m_intersection_partial),
+               ("new: _interval_invert ignores lb", m_invert_ignores_lb),
+               ("new: _interval_union takes the hull of its first operand", m_union_hull_of_first),
+               ("new: indicator_overlap union/intersection swapped", m_indicator_swapped),
+               ("new: _inverted returns the pairs unchanged", m_inverted_identity),
+               ("new: pairwise returns signed differences", m_pairwise_signed),
+               ("new: unpair returns the two arrays swapped", m_unpair_swapped),
+               ("new: one expected interval membership from TLC corrupted", m_corrupt_intervals),
+               ("new: one expected pair list from TLC corrupted", m_corrupt_pairs)]
     missed = 0
     # baseline: which violation classes exist without any mutation (must not count as 'caught')
     scratch = os.path.join(os.path.dirname(os.path.dirname(os.path.abspath(__file__))), "out", "C16_selftest")
@@ -901,21 +1124,28 @@ def selftest(a):
     print("SELFTEST baseline (no mutation): %d violations in %d classes" % (base.violations, len(base_keys)))
     # a mutant of impose_as is looked for in the mask configurations (+ scripts), every other one in the rest
     as_jobs = [j for j in jobs if "TransformsAs" in j[1] or j[0] == "scripts"]
-    other_jobs = [j for j in jobs if "TransformsAs" not in j[1]]
+    other_jobs = [j for j in jobs if "TransformsAs" not in j[1] and j[0] not in NEW_KINDS]
+    measure_jobs = [j for j in jobs if j[0] == "measure"]
+    new_jobs = [j for j in jobs if j[0] in ("intervals", "pairs")]
+    only = os.environ.get("C16_SELFTEST_ONLY")          # development aid: run the mutants whose name contains this text
     for name, mut in mutants:
+        if only and only not in name:
+            continue
         mut()
         ck = Check("C16", "exploration", tier, a.seed, rule=RULE)
         ck.outdir = scratch
         buf = io.StringIO()
         try:
             with contextlib.redirect_stdout(buf):
-                run_all(ck, a, as_jobs if name.startswith("impose_as:") else other_jobs)
+                run_all(ck, a, as_jobs if name.startswith("impose_as:") else measure_jobs if name.startswith("measure:")
+                        else new_jobs if name.startswith("new:") else other_jobs)
             new = {k: v - base_keys.get(k, 0) for k, v in ck.viol_keys.items() if v > base_keys.get(k, 0)}
         except Exception as ex:
             new = {"harness-raised:" + repr(ex)[:80]: 1}
         finally:
             for k, v in orig.items():
-                setattr(mt if k in ("suppress", "clipped", "insert_missing", "partial", "synchronized") else mc, k, v)
+                setattr(mt if k in TOOLS else mc, k, v)
+            mc.impose_position, mc.impose_weight = orig_aliases
             OPTS["corrupt"] = False
         caught = bool(new)
         ex_keys = sorted(new)[:3]
@@ -933,6 +1163,41 @@ def replay_artefact(path):
     import mystic.constraints as mc, mystic.tools as mt
     art = json.load(open(path))
     det = art["detail"]
+    if "ops" in det and "npts" in det:            # a measure-decorator case (c16_measure)
+        from harness.c16_measure import forms, compare, describe as mdescribe
+        bad = 0
+        for form, dec in forms(mc, tuple(det["npts"]), det["ops"]).items():
+            for kind in ("list", "array"):
+                try:
+                    out = as_floats(dec(lambda z: z)(make_input(det["input"], kind, np)))
+                    diff = compare(out, det["expected_exact"], False)
+                    verdict = "agrees" if diff == [] else "differs at entries %s" % diff
+                except Exception as ex:
+                    out, diff, verdict = repr(ex), None, "raises"
+                print("%s [%s/%s] on %s -> %s   spec: %s   %s" % (mdescribe(det["npts"], det["ops"]), form, kind, det["input"], out, det["expected"], verdict))
+                bad += verdict != "agrees"
+        if bad:
+            print("VIOLATION property=C16 replay=%s" % path)
+        return 1 if bad else 0
+    if str(det.get("function", "")).startswith("_interval"):      # one step of an interval script (c16_intervals)
+        from harness.c16_intervals import membership, differences, wellformed
+        args = det["args"]
+        fix = lambda B: [(float(a), float(b)) for a, b in B]
+        hdr = {"wlo": int(2 * det["test_points"][0]), "whi": int(2 * det["test_points"][-1])}
+        exp = det["expected_membership(1 in,0 out,2 open)"]
+        try:
+            R = getattr(mt, det["function"])(fix(args[0]), *([fix(args[1])] if det["function"] != "_interval_invert"
+                                                                    else [None if v is None else float(v) for v in args[1:]]))
+            missing, extra = differences(membership(R, hdr), exp) if wellformed(R) else ([-1], [])
+            print("%s%s -> %s   membership %s   spec %s   %s" % (det["function"], tuple(args), R, "".join(map(str, membership(R, hdr))) if wellformed(R) else "?",
+                                                              "".join(map(str, exp)), "agrees" if not (missing or extra) else "differs"))
+            bad = bool(missing or extra)
+        except Exception as ex:
+            print("%s%s raised %r" % (det["function"], tuple(args), ex))
+            bad = True
+        if bad:
+            print("VIOLATION property=C16 replay=%s" % path)
+        return 1 if bad else 0
     if "record" not in det:
         print("artefact %s is not a single case (%s)" % (path, art.get("key")))
         return 2
